@@ -321,3 +321,59 @@ def px_lists(model_px):
 def coq_agg(name):
     """the aggregation as a Gallina function list Z -> Z (Model/Coarsen.v: agg_of)"""
     return {"sum": "(agg_of AggSum)", "max": "(agg_of AggMax)", "min": "(agg_of AggMin)"}[name]
+
+
+# ------------------------------------------ coarse bin sizes whose reciprocal rounds down in binary64
+def reciprocal_rounds_down(B):
+    """True when n*B*(1.0/B) comes out just under n for some small n (a float64 fact about B, used only to CHOOSE
+    inputs; the judgement is exact integer block aggregation)"""
+    import math
+    inv = 1.0 / B
+    return any(math.floor((n * B) * inv) < n for n in range(1, 70))
+
+
+def binsize_sweep_plan(rng, thorough=False, per_base=3):
+    """[(base width, [factors k]), ...]: coarse bin sizes B = base*k for base in {1,7,10,11,1000,11000} x k in 2..60
+    plus random (base, k) with B <= 10^5; the float-unfriendly B first, next to as many friendly ones"""
+    plan = []
+    n_bad = 0
+    for base in (1, 7, 10, 11, 1000, 11000):
+        bad = [k for k in range(2, 61) if reciprocal_rounds_down(base * k)]
+        good = [k for k in range(2, 61) if k not in bad]
+        kb = bad if thorough else (rng.sample(bad, min(per_base, len(bad))) if bad else [])
+        kg = good if thorough else rng.sample(good, min(max(1, len(kb)), len(good), per_base))
+        n_bad += len(kb)
+        plan.append((base, sorted(kb + kg)))
+    extra = []
+    tries = 0
+    while (n_bad < 12 or len(extra) < 4) and tries < 4000:
+        tries += 1
+        base, k = rng.randint(2, 2500), rng.randint(2, 40)
+        if base * k <= 10 ** 5 and reciprocal_rounds_down(base * k):
+            extra.append((base, [k]))
+            n_bad += 1
+    for _ in range(2):
+        base, k = rng.randint(2, 2500), rng.randint(2, 40)
+        extra.append((base, [k]))
+    return plan + extra
+
+
+def binsize_sweep_cooler(base, ks):
+    """one chromosome of 6*max(k) bins of width base (so >= 6 coarse bins for every k, bins starting exactly on the
+    multiples of B) + a short second one; pixels on the boundary bins of every k"""
+    n1 = 6 * max(ks)
+    n2 = max(ks) + max(ks) // 2 + 1
+    widths = [[base] * n1, [base] * n2]
+    cells = set()
+    for k in ks:
+        for j in range(0, 6):
+            b = j * k
+            cells.add((b, b))
+            if b > 0:
+                cells.add((b - 1, b))
+                cells.add((b - 1, b - 1))
+            cells.add((0, b))
+        cells.add((n1, n1 + min(k, n2 - 1)))
+        cells.add((n1 + min(k, n2 - 1), n1 + min(k, n2 - 1)))
+    pixels = [[i, j, 1 + (3 * i + j) % 5] for (i, j) in sorted(cells)]
+    return widths, pixels
